@@ -453,3 +453,33 @@ _KERNEL_NOTE = (' (The kernel core also decides the wait-queue rules of C01: dat
 for _pid in ('C02', 'C08', 'C09', 'C10', 'C11', 'C12', 'C13', 'C14', 'C15', 'C16', 'C18', 'C19',
              'C20'):
     CLAIMS[_pid]['text'] = CLAIMS[_pid]['text'] + _KERNEL_NOTE
+
+
+# rules added in the tenth round (tenth batch of seeded changes, mutation sweep)
+_KERNEL10 = ('Kernel core: every way through Loop.schedule queues the activation exactly '
+             'once, whatever the delay or date; Interrupt.revoke raises the revoked flag on '
+             'every way through; an activation counts unless its signal was revoked.')
+_TENTH_ROUND = {
+    'C01': 'Connectives over dates are built as written (`a & (b | c)` is not flattened '
+           'into one kind).',
+    'C04': 'No assertion that could fail stands between the entry of Scope.__aexit__ and the '
+           'end of the closing sequence; no attribute of a task payload is read (it may be '
+           'any awaitable).',
+    'C05': 'A recorded failure that is passed over when the Concurrent is built was found '
+           'suppressed (or privileged): no further filter (equality, limit) drops failures.',
+    'C07': 'What an until-block watches comes to hold by a store to a truth source that '
+           'tells its subscribers in the same atomic block, however a task ended (wake-up '
+           'rule of C08); dated activations are asked for a date ahead only (`time + 0` is '
+           'the instant; precondition rule of C01); connectives are built as written.',
+    'C09': 'Every lock has a wait queue of its own, constructed by its constructor.',
+    'C10': 'The buffer is an unbounded deque (a bounded one drops the oldest item).',
+    'C13': 'Every way through the re-plan that finds demand <= throughput leaves the scale '
+           'at 1 (the pipe does not stay throttled after a congestion).',
+    'C14': 'interval()/delay() have no end of their own, for any period (zero included).',
+    'C16': 'The monitor of first() may be a coroutine function or a coroutine method of a '
+           'record built on the path; the result queue is unbounded.',
+}
+for _pid in CLAIMS:
+    if _pid != 'C17':
+        CLAIMS[_pid]['text'] = CLAIMS[_pid]['text'] + ' Tenth round: ' + _KERNEL10 + (
+            ' ' + _TENTH_ROUND[_pid] if _pid in _TENTH_ROUND else '')
